@@ -44,7 +44,11 @@ Inductive stmt :=
   (* interfaces (C09): x = &S_j{} converted to interface I_k;  [x =] xi.M_m(args) on an interface value, which
      dereferences xi at source position d *)
   | SConv (x : var) (k j : nat)
-  | SCallI (cs : nat) (d : dsite) (x : option var) (xi : var) (k m : nat) (args : list atom_e).
+  | SCallI (cs : nat) (d : dsite) (x : option var) (xi : var) (k m : nat) (args : list atom_e)
+  (* the (value, error) convention (C08): return a, e  and  x, xe = f(args); errors are nil or not, like pointers
+     (e: nil, a freshly made error, or an error variable) *)
+  | SReturn2 (a e : atom_e)
+  | SCall2 (cs : nat) (x xe : option var) (f : fname) (args : list atom_e).
 
 Record func := { f_nparams : nat; f_body : stmt }.
 (* function f is nth f of p_funcs, function 0 is the entry point; p_ginit k tells whether package-level
@@ -63,6 +67,9 @@ Definition sset (s : store) (x : var) (v : value) : store := (x, v) :: s.
 
 Definition globals_of (s : store) : store := filter (fun yv => is_glob (fst yv)) s.
 Definition locals_of (s : store) : store := filter (fun yv => negb (is_glob (fst yv))) s.
+
+(* the slot through which a callee hands its error result to the caller (a plain `return a` leaves it nil) *)
+Definition VERR : var := VL 63.
 
 Definition eval_atom (s : store) (a : atom_e) : value :=
   match a with ANil => VNil | ANew => VPtr None | AVar x => sget s x end.
@@ -143,6 +150,21 @@ Section Exec.
             else ONormal s o'
           end
       | SReturn a => OReturn (eval_atom s a) s oracle
+      | SReturn2 a e => OReturn (eval_atom s a) (sset s VERR (eval_atom s e)) oracle
+      | SCall2 _ x xe f args =>
+          match nth_error (p_funcs prog) f with
+          | None => ONormal s oracle
+          | Some fd =>
+              let after (s' : store) (v ev : value) :=
+                let s1 := globals_of s' ++ locals_of s in
+                let s2 := match x with Some y => sset s1 y v | None => s1 end in
+                match xe with Some y => sset s2 y ev | None => s2 end in
+              match exec fuel' (f_body fd) (bind_params 0 (map (eval_atom s) args) ++ globals_of s) oracle with
+              | ONormal s' o' => ONormal (after s' VNil VNil) o'
+              | OReturn v s' o' => ONormal (after s' v (sget s' VERR)) o'
+              | r => r
+              end
+          end
       | SConv x k j => ONormal (sset s x (VPtr (Some (k, j)))) oracle
       | SCallI _ d x xi k m args =>
           match sget s xi with
